@@ -121,5 +121,19 @@ CLAIMS["C09"] = {
     "technique": "forward slice of the flag + per-path annotation/fact correspondence + pipeline comparison across sites",
     "ref": "DESIGN.md section 5 C09",
 }
+CLAIMS["C17"] = {
+    "text": "Decides for all hierarchies the structural conditions of 'once, nearest wins': the superclass loop, specialised over "
+            "closed superclass lists, names exactly the public bases in declaration order (an append-only list), imports them "
+            "and inlines exactly the private ones; the names passed to the inlining are the class's own attribute and method "
+            "names computed beforehand; the method filter's truth table over (is_public, private name, already defined, inlined) "
+            "equals the reference; recursion continues through private ancestors only and receives the caller's names united "
+            "with the names emitted at the nearer level; an exact qualified-name match wins over the fuzzy class search; no "
+            "memo cache keys ancestor text on less than its inputs. The threading of emitted names between sibling private "
+            "bases is violated today (known finding: duplicates for C(_A, _B) and diamonds). Whether the suffix search finds "
+            "the intended class when no exact id exists is string matching and not decided.",
+    "note": TRUST,
+    "technique": "specialisation of the superclass/method loops + loop-carried dependence + memo-key completeness",
+    "ref": "DESIGN.md section 5 C17",
+}
 
 NOT_APPLICABLE = {}
